@@ -25,28 +25,40 @@ def oracle_layer_grad(ck, order, biort, qshift, b, colour, x, zero_input=False, 
     mod = ScatLayer(biort=biort, mode=mode, magbias=b, combine_colour=bool(colour)) if order == 1 else \
         ScatLayerj2(biort=biort, qshift=qshift, magbias=b, combine_colour=bool(colour))
     xt = T(x).requires_grad_(True)
-    try:
-        z = mod(xt)
-        g = T(ck.nprng.standard_normal(tuple(z.shape)))
-        (gx,) = torch.autograd.grad([z], xt, [g])
-    except Exception as e:
-        ck.fail(desc + ': raises %s: %s' % (type(e).__name__, str(e)[:100]), replay); return 'raise'
-    if not torch.isfinite(gx).all():
-        ck.fail(desc + ': gradient is not finite', replay); return 'nonfinite'
+    C = x.shape[1]
+    n_low = C if order == 1 else None            # order 1: the first C channels are the pooled low-passes S0
+    worst = 0.0
+    variants = ['dense cotangent'] + ([ck.rng.choice(['cotangent on the S0 channels only', 'cotangent on the magnitude channels only'])] if n_low else ['cotangent on one channel only'])
+    for variant in variants:
+        try:
+            z = mod(xt)
+            g = T(ck.nprng.standard_normal(tuple(z.shape)))
+            if variant == 'cotangent on the S0 channels only':
+                g[:, n_low:] = 0
+            elif variant == 'cotangent on the magnitude channels only':
+                g[:, :n_low] = 0
+            elif variant == 'cotangent on one channel only':
+                k = ck.rng.randrange(z.shape[1]); keep = g[:, k].clone(); g.zero_(); g[:, k] = keep
+            (gx,) = torch.autograd.grad([z], xt, [g])
+        except Exception as e:
+            ck.fail(desc + ' [%s]: raises %s: %s' % (variant, type(e).__name__, str(e)[:100]), replay); return 'raise'
+        if not torch.isfinite(gx).all():
+            ck.fail(desc + ' [%s]: gradient is not finite' % variant, replay); return 'nonfinite'
+        if zero_input:
+            continue
+        f = lambda u: (mod(u) * g).sum()
+        for _ in range(3 if variant == 'dense cotangent' else 2):
+            v = T(ck.nprng.standard_normal(tuple(x.shape)))
+            fd = dirderiv(f, xt.detach(), v, 1e-6)
+            an = float((gx * v).sum())
+            err = abs(fd - an) / max(1.0, abs(fd), abs(an))
+            worst = max(worst, err)
+            if err > 2e-5:
+                ck.fail(desc + ' [%s]: directional derivative %.10g (central difference) vs %.10g (back-propagation)' % (variant, fd, an), replay); return 'diff'
     if zero_input:
         ck.oracle_ok(('zero', order, biort, b, colour, tuple(x.shape)), group='finite-at-zero', sample={'what': desc, 'max_abs_grad': float(gx.abs().max())})
         return None
-    f = lambda u: (mod(u) * g).sum()
-    worst = 0.0
-    for _ in range(3):
-        v = T(ck.nprng.standard_normal(tuple(x.shape)))
-        fd = dirderiv(f, xt.detach(), v, 1e-6)
-        an = float((gx * v).sum())
-        err = abs(fd - an) / max(1.0, abs(fd), abs(an))
-        worst = max(worst, err)
-        if err > 2e-5:
-            ck.fail(desc + ': directional derivative %.10g (central difference) vs %.10g (back-propagation)' % (fd, an), replay); return 'diff'
-    ck.oracle_ok((order, biort, b, colour, tuple(x.shape)), group='order%d' % order, sample={'what': desc, 'rel_err': worst})
+    ck.oracle_ok((order, biort, b, colour, tuple(x.shape)), group='order%d' % order, sample={'what': desc, 'cotangents': variants, 'rel_err': worst})
     return None
 
 
